@@ -8,6 +8,7 @@
 
 mod bits;
 mod comps;
+mod derived;
 mod gen_queries;
 mod gen_tuples;
 mod query_engine;
